@@ -83,8 +83,8 @@ def txHash (t : Tx) : Bytes :=
 def txW (t : Tx) : String :=
   s!"raw={hexL t.raw} hash={hexOf (txHash t)} v={t.version.toNat} ty={t.txType.toNat} nonce={t.nonce} gp={t.gasPrice} gl={t.gasLimit} payer={hexW t.payer} pl={payloadW t.payload} sigs={sigsW t.sigs}"
 
-def resW : Res Tx → String
-  | .ok t s => s!"ok pos={s.off} {txW t}"
+def resW (withPos : Bool) : Res Tx → String
+  | .ok t s => if withPos then s!"ok pos={s.off} {txW t}" else s!"ok {txW t}"
   | .err e => errW e
   | .panic => "PANIC"
 
@@ -95,10 +95,10 @@ def handle (line : String) : String :=
     match unbx bx, parseOracle orc with
     | some bs, some tbl =>
       let R := mkRlp tbl
-      if mode == "raw" then resW (fromRawBytes R bs)
+      if mode == "raw" then resW false (fromRawBytes R bs)
       else match mode.splitOn ":" with
         | ["at", o] => match o.toNat? with
-          | some off => if off ≤ bs.length then resW (deserialize R ⟨bs, off⟩) else "bad-op"
+          | some off => if off ≤ bs.length then resW true (deserialize R ⟨bs, off⟩) else "bad-op"
           | none => "bad-op"
         | _ => "bad-op"
     | _, _ => "bad-op"
